@@ -195,7 +195,16 @@ def _shard(args):
             k = match_known(f, known, prop, mod)
             return k['id'] if k else None
         ctx.known_matcher = matcher
+        if os.environ.get('VERIF_NO_NOISE') != '1' and prop != 'C20':    # C20 has its own history tests
+            try:
+                import history
+                ctx.noise = history.Noise(ctx.rng.__class__(ctx.rng.random()))
+            except Exception:      # noqa: the noise is an extra; without the effect skeleton there is none
+                ctx.noise = None
         mod.generate(ctx, shard, nshards)
+        if ctx.noise is not None:
+            ctx.notes.append('history noise: %d calls of %d distinct public functions in %.1f s' % (
+                ctx.noise.calls, len(ctx.noise.names), ctx.noise.spent))
         mism, stats = core.compare_cases(ctx)
         return {'ok': True, 'mism': mism[:200], 'n_mism': len(mism), 'stats': stats, 'pred_fail': ctx.pred_fail[:500],
                 'n_pred_fail': len(ctx.pred_fail) + getattr(ctx, 'pred_fail_overflow', 0) +
